@@ -142,39 +142,71 @@ Proof.
     destruct (convert KAny v); inversion H; subst; auto.
 Qed.
 
+(* the variants in which the two repaired defects (1761ed1, 61c97e1) are repaired; /repo HEAD is one of them *)
+Definition fixed (var : variant) : Prop := v_persist_first var = true /\ v_set_atomic var = true.
+Lemma fixed_repaired : fixed Repaired.  Proof. split; reflexivity. Qed.
+Lemma fixed_head : fixed FrrDefect.  Proof. split; reflexivity. Qed.
+Lemma set_store_fixed var : v_set_atomic var = true -> forall s h p v, set_store var s h p v = set_store Repaired s h p v.
+Proof. intros H s h p v. unfold set_store. rewrite H. reflexivity. Qed.
+
 (* ------------------------------------------------------------------ events *)
+(* the recorded call stream: successful Apply calls, and every Rollback call whatever it returned *)
 Definition ev_applied (e : ev) : list (path * value) :=
   match e with EApply p v true => [(p, v)] | _ => [] end.
 Definition ev_rolled (e : ev) : list (path * value) :=
-  match e with ERollback p v => [(p, v)] | _ => [] end.
+  match e with ERollback p v _ => [(p, v)] | _ => [] end.
 Definition applied_ok (evs : list ev) : list (path * value) := flat_map ev_applied evs.
 Definition rolled (evs : list ev) : list (path * value) := flat_map ev_rolled evs.
 Definition ckey (c : change) : path * value := (c_path c, c_new c).
+Definition has_h (reg : registry) (c : change) : Prop := exists hi, get_handler reg (c_path c) = Some hi.
 
 Lemma applied_ok_app a b : applied_ok (a ++ b) = applied_ok a ++ applied_ok b.
 Proof. apply flat_map_app. Qed.
 Lemma rolled_app a b : rolled (a ++ b) = rolled a ++ rolled b.
 Proof. apply flat_map_app. Qed.
-Lemma rollback_evs_rolled l : rolled (rollback_evs l) = rev (map ckey l).
-Proof.
-  unfold rollback_evs. rewrite <- map_rev. induction (rev l); simpl; auto. f_equal; auto.
-Qed.
-Lemma rollback_evs_applied l : applied_ok (rollback_evs l) = [].
-Proof. unfold rollback_evs. induction (rev l); simpl; auto. Qed.
 
-Lemma apply_loop_spec reg chs : forall n k applied evs frr applied' failed evs' frr',
-  apply_loop reg chs n k applied evs frr = (applied', failed, evs', frr') ->
-  applied_ok evs = map ckey applied -> rolled evs = [] ->
-  applied_ok evs' = map ckey applied' /\ rolled evs' = [].
+Lemma firstn_S_nth {A} (d : A) l : forall j, (j < length l)%nat -> firstn (S j) l = firstn j l ++ [nth j l d].
 Proof.
-  induction chs as [|c chs IH]; intros n k applied evs frr applied' failed evs' frr' H Ha Hr;
+  induction l as [|a l IH]; intros j Hj; simpl in *; [lia|].
+  destruct j; [reflexivity|]. simpl. f_equal. apply IH. lia.
+Qed.
+
+(* rollbackChanges walks the applied list from the last index down to 0 and calls Rollback on every
+   element that has a handler, whether or not an earlier Rollback returned an error *)
+Lemma rollback_loop_spec reg chs k : Forall (has_h reg) chs -> forall i n, (i <= length chs)%nat ->
+  rolled (rollback_loop reg chs i n k) = rev (map ckey (firstn i chs)) /\
+  applied_ok (rollback_loop reg chs i n k) = [].
+Proof.
+  intros HF. induction i as [|j IH]; intros n Hi; [split; reflexivity|].
+  cbn [rollback_loop].
+  assert (Hin : In (nth j chs dflt_change) chs) by (apply nth_In; lia).
+  rewrite Forall_forall in HF. destruct (HF _ Hin) as [hi Hh]. rewrite Hh.
+  destruct (IH (S n)) as [A B]; [lia|].
+  rewrite (firstn_S_nth dflt_change) by lia. rewrite map_app, rev_app_distr. simpl.
+  split; [f_equal; exact A | exact B].
+Qed.
+Lemma rollback_evs_spec reg l k : Forall (has_h reg) l ->
+  rolled (rollback_evs reg l k) = rev (map ckey l) /\ applied_ok (rollback_evs reg l k) = [].
+Proof.
+  intros HF. unfold rollback_evs. destruct (rollback_loop_spec reg l k HF (length l) 0%nat (le_n _)) as [A B].
+  rewrite firstn_all in A. auto.
+Qed.
+
+Lemma apply_loop_spec reg chs : forall n k applied evs need applied' outcome evs' need',
+  apply_loop reg chs n k applied evs need = (applied', outcome, evs', need') ->
+  applied_ok evs = map ckey applied -> rolled evs = [] -> Forall (has_h reg) applied ->
+  applied_ok evs' = map ckey applied' /\ rolled evs' = [] /\ Forall (has_h reg) applied'.
+Proof.
+  induction chs as [|c chs IH]; intros n k applied evs need applied' outcome evs' need' H Ha Hr HF;
     cbn [apply_loop] in H.
   - inversion H; subst; auto.
-  - destruct (Nat.eqb (S n) k).
+  - destruct (get_handler reg (c_path c)) as [hi|] eqn:Eh; [|inversion H; subst; auto].
+    destruct (Nat.eqb (S n) k).
     + inversion H; subst. rewrite applied_ok_app, rolled_app, Hr. simpl. rewrite app_nil_r. auto.
     + eapply IH in H; eauto.
       * rewrite applied_ok_app, map_app, Ha. reflexivity.
       * rewrite rolled_app, Hr. reflexivity.
+      * apply Forall_app. split; auto. constructor; auto. exists hi; auto.
 Qed.
 
 (* the trace of a commit that fails: every successful Apply is rolled back, in reverse order *)
@@ -186,14 +218,19 @@ Definition trace_kept (evs : list ev) : Prop := rolled evs = [].
 Definition touch_state (st : state) (id : N) : state :=
   match find_session (sessions st) id with
   | None => st
-  | Some s => with_sessions st (put_session (sessions st) (touch s)) (lock st)
+  | Some s => set_sessions st (put_session (sessions st) (touch s)) (lock st)
   end.
 
-Definition commit_success (reg : registry) (st : state) (id : N) (f : faults) (st' : state) : Prop :=
+Lemma set_frr_same x : set_frr x (frr x) = x.
+Proof. destruct x; reflexivity. Qed.
+
+Definition commit_success (reg : registry) (g : guard) (st : state) (id : N) (f : faults) (st' : state) : Prop :=
   exists s, find_session (sessions (expire st)) id = Some s /\ s_changes s <> [] /\
-    running st' = s_cand s /\ startup st' = s_cand s /\ sfile st' = Some (s_cand s) /\
+    running st' = s_cand s /\ startup st' = s_cand s /\ sfile st' = Some (scrub g (s_cand s)) /\
     sessions st' = remove_session (sessions (expire st)) id /\
     lock st' = release (lock (expire st)) id /\ next_id st' = next_id st /\
+    running_oid st' = s_oid s /\ startup_oid st' = (next_oid st + 1)%N /\ next_oid st' = (next_oid st + 1)%N /\
+    (frr st' = frr st \/ frr st' = Some (s_cand s)) /\
     (vmem st' = vmem st \/ exists v, vmem st' = vmem st ++ [v]) /\
     (vfiles st' = vfiles st \/ exists v, vfiles st' = vfiles st ++ [v]).
 
@@ -202,63 +239,73 @@ Proof. intros H E; subst. simpl in H. inversion H; auto. Qed.
 Lemma sort_changes_nonempty reg run chs x l : sort_changes reg run chs = inr (x :: l) -> chs <> [].
 Proof. intros H E. apply sort_changes_nil with (l := x :: l) in H; auto. discriminate. Qed.
 
-Lemma expire_fields st :
-  running (expire st) = running st /\ startup (expire st) = startup st /\ sfile (expire st) = sfile st /\
-  next_id (expire st) = next_id st /\ vmem (expire st) = vmem st /\ vfiles (expire st) = vfiles st.
-Proof. unfold expire; simpl; repeat split. Qed.
+(* the daemon after a commit that failed: untouched, or — when a reload had been attempted — put back on
+   the running configuration *)
+Definition daemon_restored (st st' : state) (evs : list ev) : Prop :=
+  frr st' = frr st \/ (In EFrrReload evs /\ frr st' = Some (running st)).
 
-Lemma commit_repaired_cases reg g st id f st' r evs :
-  do_commit Repaired reg g st id f = (st', r, evs) ->
-  (r <> ROk /\ st' = touch_state (expire st) id /\ trace_undone evs) \/
-  (r = ROk /\ commit_success reg st id f st' /\ trace_kept evs).
+Lemma commit_cases var reg g st id f st' r evs :
+  v_persist_first var = true ->
+  do_commit var reg g st id f = (st', r, evs) ->
+  (r <> ROk /\ (exists d, st' = set_frr (touch_state (expire st) id) d) /\
+   (v_frr_restore var = true \/ f_reload f <> 2%nat -> daemon_restored st st' evs) /\ trace_undone evs) \/
+  (r = ROk /\ commit_success reg g st id f st' /\ trace_kept evs).
 Proof.
-  unfold do_commit, touch_state.
+  intros HP. unfold do_commit, touch_state, daemon_restored.
   destruct (find_session (sessions (expire st)) id) as [s0|] eqn:Ef.
-  2:{ intros H; inversion H; subst. left. repeat split; try discriminate. }
-  set (st1 := with_sessions (expire st) (put_session (sessions (expire st)) (touch s0)) (lock (expire st))).
+  2:{ intros H; inversion H; subst. left. repeat split; try discriminate; auto.
+      exists (frr (expire st)). symmetry. apply set_frr_same. }
+  set (st1 := set_sessions (expire st) (put_session (sessions (expire st)) (touch s0)) (lock (expire st))).
+  assert (Same : exists d, st1 = set_frr st1 d) by (exists (frr st1); symmetry; apply set_frr_same).
+  assert (F1 : frr st1 = frr st) by reflexivity.
   destruct (sort_changes reg (running (expire st)) (s_changes (touch s0))) as [e|sorted] eqn:Es.
-  { destruct e; intros H; inversion H; subst; left; repeat split; discriminate. }
+  { destruct e; intros H; inversion H; subst; left; repeat split; auto; discriminate. }
   destruct sorted as [|c0 sorted].
-  { intros H; inversion H; subst; left; repeat split; discriminate. }
+  { intros H; inversion H; subst; left; repeat split; auto; discriminate. }
   apply sort_changes_nonempty in Es. simpl in Es.
   destruct (negb (precommit_ok g (s_cand (touch s0)))).
-  { intros H; inversion H; subst; left; repeat split; discriminate. }
-  destruct (apply_loop reg (c0 :: sorted) 0 (f_apply f) [] [] false) as [[[applied failed] evs0] frr] eqn:Ea.
-  apply apply_loop_spec in Ea as [Hap Hro]; auto.
+  { intros H; inversion H; subst; left; repeat split; auto; discriminate. }
+  destruct (apply_loop reg (c0 :: sorted) 0 (f_apply f) [] [] false) as [[[applied outcome] evs0] need] eqn:Ea.
+  apply apply_loop_spec in Ea as [Hap [Hro HF]]; auto.
+  destruct (rollback_evs_spec reg applied (f_rollback f) HF) as [RB1 RB2].
   assert (U : forall mid, applied_ok mid = [] -> rolled mid = [] ->
-              trace_undone (evs0 ++ mid ++ rollback_evs applied)).
+              trace_undone (evs0 ++ mid ++ rollback_evs reg applied (f_rollback f))).
   { intros mid M1 M2. unfold trace_undone.
-    rewrite !rolled_app, !applied_ok_app, Hro, M1, M2, rollback_evs_applied, rollback_evs_rolled, Hap.
+    rewrite !rolled_app, !applied_ok_app, Hro, M1, M2, RB1, RB2, Hap.
     simpl. rewrite app_nil_r. reflexivity. }
-  destruct failed.
-  { intros H; inversion H; subst; left; repeat split; try discriminate. apply (U []); auto. }
-  destruct (frr && f_test f).
-  { intros H; inversion H; subst; left; repeat split; try discriminate. apply (U [EFrrTest]); auto. }
-  destruct (frr && f_reload f).
-  { intros H; inversion H; subst; left; repeat split; try discriminate. apply (U [EFrrTest; EFrrReload]); auto. }
-  assert (K : trace_kept (if frr then evs0 ++ [EFrrTest; EFrrReload] else evs0)).
-  { unfold trace_kept. destruct frr; auto. rewrite rolled_app, Hro. reflexivity. }
-  cbn [Repaired v_persist_first negb].
-  destruct (f_startup f).
-  { intros H; inversion H; subst; left; repeat split; try discriminate.
-    destruct frr.
-    - rewrite <- !app_assoc. apply (U ([EFrrTest; EFrrReload] ++ [EFrrReload])); auto.
-    - apply (U []); auto. }
-  pose proof (expire_fields st) as [E1 [E2 [E3 [E4 [E5 E6]]]]].
-  destruct (version_changes reg (s_changes (touch s0))) eqn:Ev.
-  - intros H; inversion H; subst; right. split; auto. split; auto.
-    exists s0. simpl. repeat split; auto.
-  - intros H; inversion H; subst; right. split; auto. split; auto.
-    exists s0. simpl. repeat split; auto.
-    + right. eexists; reflexivity.
-    + destruct (f_version f); [left; auto | right; eexists; reflexivity].
+  destruct outcome as [|[|[|k]]].
+  2:{ intros H; inversion H; subst; left; repeat split; auto; try discriminate. apply (U []); auto. }
+  2:{ intros H; inversion H; subst; left; repeat split; auto; try discriminate. apply (U []); auto. }
+  all: cbv zeta.
+  all: destruct (need && f_test f);
+    [intros H; inversion H; subst; left; repeat split; auto; try discriminate; apply (U [EFrrTest]); auto|].
+  all: destruct (need && negb (Nat.eqb (f_reload f) 0)).
+  1,3: destruct (v_frr_restore var) eqn:EV; intros H; inversion H; subst; left; (split; [discriminate|]);
+       (split; [eexists; reflexivity|]); split;
+       [ intros _; right; split; [apply in_or_app; right; simpl; auto | reflexivity]
+       | apply (U [EFrrTest; EFrrReload; EFrrReload]); auto
+       | intros [C|C]; [discriminate|]; left; simpl; destruct (Nat.eqb_spec (f_reload f) 2); [contradiction|reflexivity]
+       | apply (U [EFrrTest; EFrrReload]); auto ].
+  all: assert (K : trace_kept (if need then evs0 ++ [EFrrTest; EFrrReload] else evs0))
+         by (unfold trace_kept; destruct need; auto; rewrite rolled_app, Hro; reflexivity).
+  all: rewrite HP; cbn [negb].
+  all: destruct (f_startup f);
+    [intros H; inversion H; subst; left; split; [discriminate|]; split; [eexists; reflexivity|]; split;
+      [intros _; destruct need; [right; split; [apply in_or_app; left; apply in_or_app; right; simpl; auto|reflexivity] | left; reflexivity]
+      | destruct need; [rewrite <- !app_assoc; apply (U ([EFrrTest; EFrrReload] ++ [EFrrReload])); auto | apply (U []); auto]]|].
+  all: destruct (version_changes reg (s_changes (touch s0))) eqn:Ev;
+    intros H; inversion H; subst; right; (split; [reflexivity|]); (split; [|exact K]);
+    exists s0; simpl; repeat split; auto;
+    try (destruct need; [right|left]; reflexivity);
+    try (right; eexists; reflexivity);
+    try (destruct (f_version f); [left; reflexivity | right; eexists; reflexivity]).
 Qed.
 
-(* the same for every variant, i.e. also for the code as it is today, as long as the failure is not one
-   of the two persistence failures *)
+(* for every variant — also for the tree before the three fixes — as long as the failure is not the reload
+   or one of the two persistence failures *)
 Lemma commit_early_failure var reg g st id f st' r evs :
   do_commit var reg g st id f = (st', r, evs) ->
-  r <> ROk -> r <> RStartupSave -> r <> RVersionSave ->
+  r <> ROk -> r <> RStartupSave -> r <> RVersionSave -> r <> RFrrReload ->
   st' = touch_state (expire st) id /\ trace_undone evs.
 Proof.
   unfold do_commit, touch_state.
@@ -270,25 +317,25 @@ Proof.
   { intros H; inversion H; subst; repeat split. }
   destruct (negb (precommit_ok g (s_cand (touch s0)))).
   { intros H; inversion H; subst; repeat split. }
-  destruct (apply_loop reg (c0 :: sorted) 0 (f_apply f) [] [] false) as [[[applied failed] evs0] frr] eqn:Ea.
-  apply apply_loop_spec in Ea as [Hap Hro]; auto.
+  destruct (apply_loop reg (c0 :: sorted) 0 (f_apply f) [] [] false) as [[[applied outcome] evs0] need] eqn:Ea.
+  apply apply_loop_spec in Ea as [Hap [Hro HF]]; auto.
+  destruct (rollback_evs_spec reg applied (f_rollback f) HF) as [RB1 RB2].
   assert (U : forall mid, applied_ok mid = [] -> rolled mid = [] ->
-              trace_undone (evs0 ++ mid ++ rollback_evs applied)).
+              trace_undone (evs0 ++ mid ++ rollback_evs reg applied (f_rollback f))).
   { intros mid M1 M2. unfold trace_undone.
-    rewrite !rolled_app, !applied_ok_app, Hro, M1, M2, rollback_evs_applied, rollback_evs_rolled, Hap.
+    rewrite !rolled_app, !applied_ok_app, Hro, M1, M2, RB1, RB2, Hap.
     simpl. rewrite app_nil_r. reflexivity. }
-  destruct failed.
-  { intros H; inversion H; subst; split; auto. apply (U []); auto. }
-  destruct (frr && f_test f).
-  { intros H; inversion H; subst; split; auto. apply (U [EFrrTest]); auto. }
-  destruct (frr && f_reload f).
-  { intros H; inversion H; subst; split; auto. apply (U [EFrrTest; EFrrReload]); auto. }
-  destruct (negb (v_persist_first var)).
-  - destruct (f_startup f); [intros H; inversion H; subst; congruence|].
-    destruct (version_changes reg (s_changes (touch s0))); [intros H; inversion H; subst; congruence|].
-    destruct (f_version f); intros H; inversion H; subst; congruence.
-  - destruct (f_startup f); [intros H; inversion H; subst; congruence|].
-    destruct (version_changes reg (s_changes (touch s0))); intros H; inversion H; subst; congruence.
+  destruct outcome as [|[|[|k]]].
+  2:{ intros H; inversion H; subst; split; auto. apply (U []); auto. }
+  2:{ intros H; inversion H; subst; split; auto. apply (U []); auto. }
+  all: cbv zeta.
+  all: destruct (need && f_test f); [intros H; inversion H; subst; split; auto; apply (U [EFrrTest]); auto|].
+  all: destruct (need && negb (Nat.eqb (f_reload f) 0));
+    [destruct (v_frr_restore var); intros H; inversion H; subst; congruence|].
+  all: destruct (negb (v_persist_first var));
+    (destruct (f_startup f); [intros H; inversion H; subst; congruence|]);
+    (destruct (version_changes reg (s_changes (touch s0))); [intros H; inversion H; subst; congruence|]);
+    try (destruct (f_version f)); intros H; inversion H; subst; congruence.
 Qed.
 
 (* ------------------------------------------------------------------ the invariant *)
@@ -298,23 +345,30 @@ Definition agrees (cand run : store) (chs : list change) : Prop :=
   (forall c, has_cont run c = true -> has_cont cand c = true) /\
   (forall c, has_cont cand c = true -> has_cont run c = true \/ exists p, In p (map c_path chs) /\ is_prefix c p).
 
+(* at most one session; it owns the lock; its configuration object is not the running or the startup
+   object (no sharing); its candidate agrees with running outside the paths it set *)
 Definition Inv (st : state) : Prop :=
-  (sessions st = [] /\ lock st = None) \/
-  (exists s, sessions st = [s] /\ lock st = Some (s_id s) /\ s_alias s = false /\
-             agrees (s_cand s) (running st) (s_changes s)).
+  (running_oid st <= next_oid st)%N /\ (startup_oid st <= next_oid st)%N /\
+  ((sessions st = [] /\ lock st = None) \/
+   (exists s, sessions st = [s] /\ lock st = Some (s_id s) /\ (s_oid s <= next_oid st)%N /\
+              s_oid s <> running_oid st /\ s_oid s <> startup_oid st /\
+              agrees (s_cand s) (running st) (s_changes s))).
 
 Lemma agrees_refl r : agrees r r [].
 Proof. repeat split; auto. Qed.
 
-Lemma inv_init r : Inv (init_state r).
-Proof. left; auto. Qed.
+Lemma inv_init r shared : Inv (init_state_gen r shared).
+Proof. unfold Inv, init_state_gen; simpl. destruct shared; repeat split; try lia; left; auto. Qed.
+
+Lemma inv_set_frr st d : Inv (set_frr st d) <-> Inv st.
+Proof. reflexivity. Qed.
 
 Lemma inv_expire st : Inv st -> Inv (expire st).
 Proof.
-  intros [[Hs Hl]|[s [Hs [Hl [Ha Hg]]]]].
+  intros [B1 [B2 [[Hs Hl]|[s [Hs [Hl [Hb [N1 [N2 Hg]]]]]]]]]; (split; [exact B1|]); (split; [exact B2|]).
   - left. unfold expire; simpl. rewrite Hs, Hl. auto.
-  - unfold expire, Inv; simpl. rewrite Hs, Hl. simpl. destruct (alive s) eqn:E; simpl.
-    + right. exists s. auto.
+  - unfold expire; simpl. rewrite Hs, Hl. simpl. destruct (alive s) eqn:E; simpl.
+    + right. exists s. auto 10.
     + left. rewrite N.eqb_refl. auto.
 Qed.
 
@@ -322,13 +376,14 @@ Lemma expire_running st : running (expire st) = running st.
 Proof. reflexivity. Qed.
 
 Lemma inv_single st s id : Inv st -> find_session (sessions st) id = Some s ->
-  sessions st = [s] /\ lock st = Some (s_id s) /\ s_id s = id /\ s_alias s = false /\
+  sessions st = [s] /\ lock st = Some (s_id s) /\ s_id s = id /\ (s_oid s <= next_oid st)%N /\
+  s_oid s <> running_oid st /\ s_oid s <> startup_oid st /\
   agrees (s_cand s) (running st) (s_changes s).
 Proof.
-  intros [[Hs Hl]|[s1 [Hs [Hl [Ha Hg]]]]] Hf.
+  intros [_ [_ [[Hs Hl]|[s1 [Hs [Hl [Hb [N1 [N2 Hg]]]]]]]]] Hf.
   - rewrite Hs in Hf. discriminate.
   - rewrite Hs in Hf. simpl in Hf. destruct (N.eqb (s_id s1) id) eqn:E; [|discriminate].
-    inversion Hf; subst. apply N.eqb_eq in E. auto.
+    inversion Hf; subst. apply N.eqb_eq in E. auto 10.
 Qed.
 
 Lemma put_single s s' : s_id s' = s_id s -> put_session [s] s' = [s'].
@@ -341,14 +396,15 @@ Proof. simpl. rewrite N.eqb_refl. reflexivity. Qed.
 Lemma inv_touch_state st id : Inv st -> Inv (touch_state st id).
 Proof.
   intros HI. unfold touch_state. destruct (find_session (sessions st) id) as [s|] eqn:Ef; auto.
-  destruct (inv_single _ _ _ HI Ef) as [Hs [Hl [Hid [Ha Hg]]]].
-  right. exists (touch s). simpl. rewrite Hs, put_single by reflexivity. auto.
+  destruct (inv_single _ _ _ HI Ef) as [Hs [Hl [Hid [Hb [N1 [N2 Hg]]]]]].
+  destruct HI as [B1 [B2 _]]. split; [exact B1|]. split; [exact B2|].
+  right. exists (touch s). simpl. rewrite Hs, put_single by reflexivity. auto 10.
 Qed.
 Lemma touch_state_persist st id :
   running (touch_state st id) = running st /\ startup (touch_state st id) = startup st /\
   sfile (touch_state st id) = sfile st /\ vmem (touch_state st id) = vmem st /\
   vfiles (touch_state st id) = vfiles st /\ next_id (touch_state st id) = next_id st /\
-  lock (touch_state st id) = lock st /\
+  lock (touch_state st id) = lock st /\ frr (touch_state st id) = frr st /\
   map s_id (sessions (touch_state st id)) = map s_id (sessions st).
 Proof.
   unfold touch_state. destruct (find_session (sessions st) id); simpl; repeat split; auto.
@@ -356,12 +412,16 @@ Proof.
   destruct (N.eqb (s_id a) (s_id (touch s))) eqn:E; auto. apply N.eqb_eq in E. simpl in *. auto.
 Qed.
 
-Lemma inv_commit reg g st id f st' r evs :
-  Inv st -> do_commit Repaired reg g st id f = (st', r, evs) -> Inv st'.
+Lemma inv_commit var reg g st id f st' r evs :
+  fixed var -> Inv st -> do_commit var reg g st id f = (st', r, evs) -> Inv st'.
 Proof.
-  intros HI H. apply commit_repaired_cases in H as [[_ [E _]]|[_ [[s [Ef [_ [_ [_ [_ [Hs [Hl _]]]]]]]] _]]].
-  - subst. apply inv_touch_state, inv_expire, HI.
-  - apply inv_expire in HI. destruct (inv_single _ _ _ HI Ef) as [Hs1 [Hl1 [Hid _]]].
+  intros HV HI H.
+  apply (commit_cases _ _ _ _ _ _ _ _ _ (proj1 HV)) in H
+    as [[_ [[d E] _]]|[_ [[s [Ef [_ [_ [_ [_ [Hs [Hl [_ [O1 [O2 [O3 _]]]]]]]]]]]] _]]].
+  - subst. apply inv_set_frr, inv_touch_state, inv_expire, HI.
+  - apply inv_expire in HI. destruct (inv_single _ _ _ HI Ef) as [Hs1 [Hl1 [Hid [Hb _]]]].
+    split; [rewrite O1, O3; simpl in *; change (next_oid (expire st)) with (next_oid st) in Hb; lia|].
+    split; [rewrite O2, O3; lia|].
     left. rewrite Hs, Hl, Hs1, Hl1. subst id. rewrite remove_single, release_own. auto.
 Qed.
 
@@ -370,9 +430,11 @@ Proof.
   intros HI. apply inv_expire in HI. unfold do_create. cbv zeta.
   destruct (lock (expire st)) eqn:El.
   - intros H; inversion H; subst; auto.
-  - destruct HI as [[Hs _]|[s [_ [Hl _]]]]; [|congruence].
-    rewrite Hs. intros H; inversion H; subst.
-    right. eexists. simpl. split; [reflexivity|]. simpl. repeat split; auto.
+  - destruct HI as [B1 [B2 [[Hs _]|[s [_ [Hl _]]]]]]; [|congruence].
+    unfold expire in B1, B2; simpl in B1, B2.
+    rewrite Hs. intros H; inversion H; subst. simpl.
+    split; [simpl; lia|]. split; [simpl; lia|].
+    right. eexists. simpl. split; [reflexivity|]. simpl. repeat split; auto; lia.
 Qed.
 
 Lemma has_session_find l id : has_session l id = true -> exists s, find_session l id = Some s.
@@ -388,13 +450,14 @@ Proof.
   - apply has_session_find in Eh as [s Ef].
     destruct (inv_single _ _ _ HI Ef) as [Hs [Hl [Hid _]]].
     rewrite Hs, Hl. subst id. rewrite remove_single, release_own.
-    intros H; inversion H; subst. left. auto.
+    destruct HI as [B1 [B2 _]].
+    intros H; inversion H; subst. split; [exact B1|]. split; [exact B2|]. left. auto.
   - intros H; inversion H; subst; auto.
 Qed.
 
 Lemma inv_delete st id st' r : Inv st -> do_delete st id = (st', r) -> Inv st'.
 Proof.
-  intros HI. apply inv_expire in HI. unfold do_delete.
+  intros HI. apply inv_expire in HI. unfold do_delete. cbv zeta.
   destruct (find_session (sessions (expire st)) id) as [s|] eqn:Ef.
   - intros H; inversion H; subst.
     pose proof (inv_touch_state _ id HI) as HT. unfold touch_state in HT. rewrite Ef in HT. exact HT.
@@ -403,15 +466,20 @@ Qed.
 
 Lemma inv_tick st d : Inv st -> Inv (do_tick st d).
 Proof.
-  intros [[Hs Hl]|[s [Hs [Hl [Ha Hg]]]]].
+  intros [B1 [B2 [[Hs Hl]|[s [Hs [Hl [Hb [N1 [N2 Hg]]]]]]]]]; (split; [exact B1|]); (split; [exact B2|]).
   - left. unfold do_tick; simpl. rewrite Hs; auto.
-  - right. unfold do_tick; simpl. rewrite Hs. simpl. eexists; split; [reflexivity|]. simpl. auto.
+  - right. unfold do_tick; simpl. rewrite Hs. simpl. eexists; split; [reflexivity|]. simpl. auto 10.
 Qed.
 
 Lemma inv_rollback st v st' r : Inv st -> do_rollback st v = (st', r) -> Inv st'.
 Proof.
-  intros HI. apply inv_expire in HI. unfold do_rollback.
+  intros HI. apply inv_expire in HI. unfold do_rollback. cbv zeta.
   destruct (_ || _); intros H; inversion H; subst; auto.
+  destruct HI as [B1 [B2 HS]]. unfold expire in B1, B2; simpl in B1, B2.
+  split; [simpl; lia|]. split; [simpl; lia|]. simpl.
+  destruct HS as [?|[s [Hs [Hl [Hb [N1 [N2 Hg]]]]]]]; [left; auto|].
+  unfold expire in Hb; simpl in Hb.
+  right. exists s. repeat split; auto; try apply Hg. lia.
 Qed.
 
 Lemma agrees_set cand run chs h p v cand' :
@@ -427,118 +495,149 @@ Proof.
     + right. exists p. rewrite map_app, in_app_iff. simpl. auto.
 Qed.
 
-Lemma inv_set reg st id p v vf st' r :
-  Inv st -> do_set Repaired reg st id p v vf = (st', r) -> Inv st' /\ running st' = running st.
+(* a write through the session's object reaches the session only: nothing else holds that object *)
+Lemma write_obj_private st s o c :
+  sessions st = [s] -> s_oid s = o -> o <> running_oid st -> o <> startup_oid st ->
+  write_obj st o c =
+  set_sessions st [{| s_id := s_id s; s_cand := c; s_oid := s_oid s; s_changes := s_changes s; s_idle := s_idle s |}] (lock st).
 Proof.
-  intros HI. apply inv_expire in HI. unfold do_set.
+  intros Hs Ho N1 N2. unfold write_obj, set_sessions. rewrite Hs. simpl.
+  rewrite Ho, N.eqb_refl.
+  destruct (N.eqb_spec (running_oid st) o); [congruence|].
+  destruct (N.eqb_spec (startup_oid st) o); [congruence|]. reflexivity.
+Qed.
+
+Lemma inv_set var reg st id p v vf st' r :
+  fixed var -> Inv st -> do_set var reg st id p v vf = (st', r) ->
+  Inv st' /\ running st' = running st /\ startup st' = startup st.
+Proof.
+  intros HV HI. apply inv_expire in HI. unfold do_set. cbv zeta.
   destruct (find_session (sessions (expire st)) id) as [s|] eqn:Ef.
   2:{ intros H; inversion H; subst; auto. }
-  destruct (inv_single _ _ _ HI Ef) as [Hs [Hl [Hid [Ha Hg]]]].
-  assert (HT : Inv (with_sessions (expire st) (put_session (sessions (expire st)) (touch s)) (lock (expire st)))).
+  destruct (inv_single _ _ _ HI Ef) as [Hs [Hl [Hid [Hb [N1 [N2 Hg]]]]]].
+  assert (HT : Inv (set_sessions (expire st) (put_session (sessions (expire st)) (touch s)) (lock (expire st)))).
   { pose proof (inv_touch_state _ id HI) as HT. unfold touch_state in HT. rewrite Ef in HT. exact HT. }
   destruct (get_handler reg p) as [hi|]; [|intros H; inversion H; subst; auto].
   destruct vf; [intros H; inversion H; subst; auto|].
+  rewrite (set_store_fixed var (proj2 HV)).
   destruct (set_store Repaired (s_cand (touch s)) (hget reg hi) p v) as [cand' ok] eqn:Est.
   rewrite Hs, put_single by reflexivity.
-  intros H; inversion H; subst; clear H. simpl. rewrite Ha. split; auto.
+  match goal with |- (write_obj ?X ?o ?c, _) = _ -> _ =>
+    rewrite (write_obj_private X _ o c eq_refl eq_refl N1 N2) end.
+  intros H; inversion H; subst; clear H. simpl. split; auto.
+  destruct HI as [B1 [B2 _]]. split; [exact B1|]. split; [exact B2|].
   right. eexists; split; [reflexivity|]. simpl.
-  split; [exact Hl|]. split; [reflexivity|].
+  split; [exact Hl|]. split; [exact Hb|]. split; [exact N1|]. split; [exact N2|].
   destruct ok.
   - exact (agrees_set _ _ _ _ _ _ _ Hg Est _).
   - apply set_store_failed_atomic in Est. subst. exact Hg.
 Qed.
 
-Lemma inv_step reg g st o st' r evs :
-  Inv st -> step Repaired reg g st o = (st', r, evs) -> Inv st'.
+Lemma inv_step var reg g st o st' r evs :
+  fixed var -> Inv st -> step var reg g st o = (st', r, evs) -> Inv st'.
 Proof.
-  intros HI. destruct o; simpl.
+  intros HV HI. destruct o; simpl.
   - destruct (do_create st) eqn:E. intros H; inversion H; subst. eapply inv_create; eauto.
   - destruct (do_close st id) eqn:E. intros H; inversion H; subst. eapply inv_close; eauto.
   - destruct (do_delete st id) eqn:E. intros H; inversion H; subst. eapply inv_delete; eauto.
-  - destruct (do_set Repaired reg st id p v vfail) eqn:E. intros H; inversion H; subst. eapply inv_set; eauto.
+  - destruct (do_set var reg st id p v vfail) eqn:E. intros H; inversion H; subst. eapply inv_set; eauto.
   - intros H; inversion H; subst. apply inv_tick; auto.
   - destruct (do_rollback st ver) eqn:E. intros H; inversion H; subst. eapply inv_rollback; eauto.
   - intros H. eapply inv_commit; eauto.
 Qed.
 
-Lemma inv_run reg g ops : forall st, Inv st -> Inv (run Repaired reg g st ops).
+Lemma inv_run var reg g ops : fixed var -> forall st, Inv st -> Inv (run var reg g st ops).
 Proof.
-  induction ops as [|o ops IH]; simpl; intros st HI; auto.
-  apply IH. destruct (step Repaired reg g st o) as [[st' r] evs] eqn:E. simpl. eapply inv_step; eauto.
+  intros HV. induction ops as [|o ops IH]; simpl; intros st HI; auto.
+  apply IH. destruct (step var reg g st o) as [[st' r] evs] eqn:E. simpl. eapply inv_step; eauto.
 Qed.
 
 (* ------------------------------------------------------------------ the property lemmas *)
 Definition persisted (st : state) := (running st, startup st, sfile st, vfiles st, vmem st).
 
-(* atomicity: a commit that does not return ok only expires idle sessions and refreshes the
-   session's activity stamp; all successful applies are rolled back in reverse order *)
-Lemma atomic reg g st id f st' r evs :
-  do_commit Repaired reg g st id f = (st', r, evs) -> r <> ROk ->
-  st' = touch_state (expire st) id /\ persisted st' = persisted st /\ trace_undone evs.
+(* atomicity: a commit that does not return ok only expires idle sessions, refreshes the session's
+   activity stamp and — when a daemon reload had been attempted — puts the daemon back on the running
+   configuration; every successful Apply is rolled back in reverse order, whatever the Rollback calls return *)
+Lemma atomic var reg g st id f st' r evs :
+  fixed var -> do_commit var reg g st id f = (st', r, evs) -> r <> ROk ->
+  (exists d, st' = set_frr (touch_state (expire st) id) d) /\ persisted st' = persisted st /\
+  (v_frr_restore var = true \/ f_reload f <> 2%nat -> daemon_restored st st' evs) /\ trace_undone evs.
 Proof.
-  intros H Hr. apply commit_repaired_cases in H as [[_ [E T]]|[E _]]; [|contradiction].
-  subst. split; auto. split; auto. unfold persisted.
+  intros HV H Hr. apply (commit_cases _ _ _ _ _ _ _ _ _ (proj1 HV)) in H as [[_ [[d E] [D T]]]|[E _]]; [|contradiction].
+  split; [exists d; exact E|]. split; [|auto]. subst. unfold persisted. simpl.
   destruct (touch_state_persist (expire st) id) as [P1 [P2 [P3 [P4 [P5 _]]]]].
   rewrite P1, P2, P3, P4, P5. reflexivity.
 Qed.
 
 (* frame: a successful commit publishes exactly the candidate, which differs from the previous running
    configuration only at paths set in this session *)
-Lemma frame reg g st id f st' evs :
-  Inv st -> do_commit Repaired reg g st id f = (st', ROk, evs) ->
+Lemma frame var reg g st id f st' evs :
+  fixed var -> Inv st -> do_commit var reg g st id f = (st', ROk, evs) ->
   exists s, find_session (sessions (expire st)) id = Some s /\ s_changes s <> [] /\
-    running st' = s_cand s /\ startup st' = s_cand s /\ sfile st' = Some (s_cand s) /\
+    running st' = s_cand s /\ startup st' = s_cand s /\ sfile st' = Some (scrub g (s_cand s)) /\
+    (frr st' = frr st \/ frr st' = Some (running st')) /\
     (forall p, ~ In p (map c_path (s_changes s)) -> get_leaf (running st') p = get_leaf (running st) p) /\
     (forall c, has_cont (running st) c = true -> has_cont (running st') c = true) /\
     (forall c, has_cont (running st') c = true -> has_cont (running st) c = true \/
                exists p, In p (map c_path (s_changes s)) /\ is_prefix c p) /\
     trace_kept evs.
 Proof.
-  intros HI H. apply commit_repaired_cases in H as [[E _]|[_ [[s [Ef [Hn [Hr [Hs [Hf _]]]]]] K]]]; [congruence|].
-  apply inv_expire in HI. destruct (inv_single _ _ _ HI Ef) as [_ [_ [_ [_ [A1 [A2 A3]]]]]].
+  intros HV HI H. apply (commit_cases _ _ _ _ _ _ _ _ _ (proj1 HV)) in H as [[E _]|[_ [CS K]]]; [congruence|].
+  destruct CS as [s [Ef [Hn [Hr [Hs [Hf [_ [_ [_ [_ [_ [_ [Hd _]]]]]]]]]]]]].
+  apply inv_expire in HI. destruct (inv_single _ _ _ HI Ef) as [_ [_ [_ [_ [_ [_ [A1 [A2 A3]]]]]]]].
   exists s. rewrite Hr. repeat split; auto.
 Qed.
 
-(* isolation: nothing but a successful commit changes running, startup, the startup file or the versions *)
-Lemma isolation reg g st o st' r evs :
-  Inv st -> step Repaired reg g st o = (st', r, evs) ->
-  persisted st' <> persisted st -> exists id f, o = OCommit id f /\ r = ROk.
+(* isolation: nothing but a successful commit changes running, startup, the startup file or the versions;
+   nothing but a commit touches the routing daemon *)
+Lemma isolation var reg g st o st' r evs :
+  fixed var -> Inv st -> step var reg g st o = (st', r, evs) ->
+  (persisted st' <> persisted st -> exists id f, o = OCommit id f /\ r = ROk) /\
+  (frr st' <> frr st -> exists id f, o = OCommit id f).
 Proof.
-  intros HI H Hp. destruct o; simpl in H.
-  - exfalso. apply Hp. unfold do_create in H. destruct (lock (expire st)); inversion H; subst; reflexivity.
-  - exfalso. apply Hp. unfold do_close in H. destruct (has_session _ _); inversion H; subst; reflexivity.
-  - exfalso. apply Hp. unfold do_delete in H. destruct (find_session _ _); inversion H; subst; reflexivity.
-  - exfalso. apply Hp. destruct (do_set Repaired reg st id p v vfail) as [s1 r1] eqn:E. inversion H; subst.
-    pose proof (inv_set _ _ _ _ _ _ _ _ HI E) as [_ Hr].
-    unfold persisted. rewrite Hr. unfold do_set in E.
-    destruct (find_session _ _); [|inversion E; subst; reflexivity].
-    destruct (get_handler reg p); [|inversion E; subst; reflexivity].
-    destruct vfail; [inversion E; subst; reflexivity|].
-    destruct (set_store _ _ _ _ _). inversion E; subst. reflexivity.
-  - exfalso. apply Hp. inversion H; subst. reflexivity.
-  - exfalso. apply Hp. unfold do_rollback in H. destruct (_ || _); inversion H; subst; reflexivity.
-  - exists id, f. split; auto. destruct r; auto;
-    exfalso; apply Hp; (eapply atomic in H; [|discriminate]); destruct H as [_ [H _]]; exact H.
+  intros HV HI H.
+  assert (Q : (persisted st' = persisted st /\ frr st' = frr st) \/ exists id f, o = OCommit id f /\
+              (r <> ROk -> persisted st' = persisted st)).
+  { destruct o; simpl in H.
+    - left. unfold do_create in H. cbv zeta in H. destruct (lock (expire st)); inversion H; subst; split; reflexivity.
+    - left. unfold do_close in H. cbv zeta in H. destruct (has_session _ _); inversion H; subst; split; reflexivity.
+    - left. unfold do_delete in H. cbv zeta in H. destruct (find_session _ _); inversion H; subst; split; reflexivity.
+    - left. destruct (do_set var reg st id p v vfail) as [s1 r1] eqn:E. inversion H; subst.
+      pose proof (inv_set _ _ _ _ _ _ _ _ _ HV HI E) as [_ [Hr Hs]].
+      unfold persisted. rewrite Hr, Hs. unfold do_set in E. cbv zeta in E.
+      destruct (find_session _ _); [|inversion E; subst; split; reflexivity].
+      destruct (get_handler reg p); [|inversion E; subst; split; reflexivity].
+      destruct vfail; [inversion E; subst; split; reflexivity|].
+      destruct (set_store _ _ _ _ _). inversion E; subst. split; reflexivity.
+    - left. inversion H; subst. split; reflexivity.
+    - left. unfold do_rollback in H. cbv zeta in H. destruct (_ || _); inversion H; subst; split; reflexivity.
+    - right. exists id, f. split; auto. intros Hr. eapply atomic in H; eauto. apply H. }
+  destruct Q as [[P F]|[id [f [E P]]]]; split; intros Hn; try congruence; try (exists id, f; auto; fail).
+  exists id, f. split; auto. destruct r; auto; exfalso; apply Hn, P; discriminate.
 Qed.
 
 (* single lock *)
 Lemma single_lock st : Inv st ->
   (forall s1 s2, In s1 (sessions st) -> In s2 (sessions st) -> s1 = s2) /\
   (forall s, In s (sessions st) -> lock st = Some (s_id s)) /\
-  (sessions st = [] -> lock st = None).
+  (sessions st = [] -> lock st = None) /\
+  (forall s, In s (sessions st) -> s_oid s <> running_oid st /\ s_oid s <> startup_oid st).
 Proof.
-  intros [[Hs Hl]|[s [Hs [Hl _]]]]; rewrite Hs; simpl; repeat split; intros; try contradiction; auto.
+  intros [_ [_ [[Hs Hl]|[s [Hs [Hl [_ [N1 [N2 _]]]]]]]]]; rewrite Hs; simpl; repeat split; intros; try contradiction; auto.
   - intuition; subst; auto.
   - intuition; subst; auto.
   - discriminate.
+  - intuition; subst; auto.
+  - intuition; subst; auto.
 Qed.
 Lemma create_refused st o : lock (expire st) = Some o -> do_create st = (expire st, RLocked).
-Proof. intros H. unfold do_create. rewrite H. reflexivity. Qed.
+Proof. intros H. unfold do_create. cbv zeta. rewrite H. reflexivity. Qed.
 Lemma create_granted st st' id : do_create st = (st', RId id) ->
   lock (expire st) = None /\ lock st' = Some id /\ id = (next_id st + 1)%N /\
-  exists s, In s (sessions st') /\ s_id s = id /\ s_cand s = running st /\ s_changes s = [].
+  exists s, In s (sessions st') /\ s_id s = id /\ s_cand s = running st /\ s_changes s = [] /\
+            s_oid s = (next_oid st + 1)%N.
 Proof.
-  unfold do_create. destruct (lock (expire st)) eqn:E; intros H; inversion H; subst.
+  unfold do_create. cbv zeta. destruct (lock (expire st)) eqn:E; intros H; inversion H; subst.
   simpl. repeat split; auto. eexists. split; [apply in_or_app; right; left; reflexivity|]. auto.
 Qed.
 
@@ -554,25 +653,21 @@ Proof.
   rewrite (H a) by auto. apply IH. intros; apply H; auto.
 Qed.
 
-(* sessions that are still alive are not touched by expiry, and nothing else is either *)
 Lemma expire_alive st : (forall s, In s (sessions st) -> alive s = true) -> expire st = st.
 Proof.
   intros H. unfold expire. rewrite (filter_all alive) by exact H.
   rewrite (filter_none (fun s => negb (alive s))) by (intros x Hx; rewrite (H x Hx); reflexivity).
-  destruct st as [r su f ss lk n vm vf]; simpl. destruct lk; reflexivity.
+  destruct st as [r ro su so f d ss lk n no vm vf]; simpl. unfold set_sessions; simpl. destruct lk; reflexivity.
 Qed.
-(* expiry never touches the datastores *)
-Lemma expire_persisted st : persisted (expire st) = persisted st.
-Proof. reflexivity. Qed.
-(* in a reachable state an idle session disappears with its lock at the next API call ... *)
+Lemma expire_persisted st : persisted (expire st) = persisted st /\ frr (expire st) = frr st.
+Proof. split; reflexivity. Qed.
 Lemma expire_idle st s : Inv st -> In s (sessions st) -> alive s = false ->
   sessions (expire st) = [] /\ lock (expire st) = None.
 Proof.
-  intros [[Hs _]|[s1 [Hs [Hl _]]]] Hin Ha; rewrite Hs in Hin; simpl in Hin; [contradiction|].
-  destruct Hin as [->|[]]. unfold expire. rewrite Hs, Hl. simpl. rewrite Ha. simpl.
+  intros [_ [_ [[Hs _]|[s1 [Hs [Hl _]]]]]] Hin Ha; rewrite Hs in Hin; simpl in Hin; [contradiction|].
+  destruct Hin as [->|[]]. unfold expire. simpl. rewrite Hs, Hl. simpl. rewrite Ha. simpl.
   rewrite N.eqb_refl. auto.
 Qed.
-(* ... so the next Create is granted, and every call that names the expired session is refused *)
 Lemma expired_create st s : Inv st -> In s (sessions st) -> alive s = false ->
   snd (do_create st) = RId (next_id st + 1)%N.
 Proof.
@@ -587,24 +682,6 @@ Lemma expired_refused var reg g st s : Inv st -> In s (sessions st) -> alive s =
 Proof.
   intros HI Hin Ha id. destruct (expire_idle _ _ HI Hin Ha) as [Hs _].
   unfold do_set, do_commit, do_close, do_delete. cbv zeta. rewrite Hs. simpl. auto.
-Qed.
-(* every call that finds the session refreshes its activity stamp *)
-Lemma set_touches var reg st id p v vf st' r :
-  do_set var reg st id p v vf = (st', r) -> r <> RNoSession ->
-  forall s, In s (sessions st') -> s_id s = id -> s_idle s = 0%N.
-Proof.
-  unfold do_set. cbv zeta.
-  destruct (find_session (sessions (expire st)) id) as [s0|] eqn:Ef; [|intros H; inversion H; congruence].
-  assert (P : forall s' l, s_idle s' = 0%N -> s_id s' = id -> forall s, In s (put_session l s') -> s_id s = id -> s_idle s = 0%N).
-  { intros s' l Hz Hid s Hin Hs. unfold put_session in Hin. apply in_map_iff in Hin as [a [Ea _]].
-    destruct (N.eqb (s_id a) (s_id s')) eqn:E; [subst; auto|].
-    subst a. apply N.eqb_neq in E. congruence. }
-  assert (Hid0 : s_id s0 = id).
-  { unfold find_session in Ef. apply find_some in Ef as [_ E]. apply N.eqb_eq in E. exact E. }
-  destruct (get_handler reg p) as [hi|]; [|intros H _; inversion H; subst; simpl; apply P; auto].
-  destruct vf; [intros H _; inversion H; subst; simpl; apply P; auto|].
-  destruct (set_store var (s_cand (touch s0)) (hget reg hi) p v) as [c ok].
-  intros H _; inversion H; subst; simpl. apply P; auto.
 Qed.
 
 (* ------------------------------------------------------------------ the candidate is exactly the replay of its changes *)
@@ -638,68 +715,86 @@ Proof.
   simpl. apply H. unfold find_session in Ef. apply find_some in Ef. tauto.
 Qed.
 
-Lemma inv2_step reg g st o st' r evs :
-  Inv st -> Inv2 reg st -> step Repaired reg g st o = (st', r, evs) -> Inv2 reg st'.
+Lemma inv2_step var reg g st o st' r evs :
+  fixed var -> Inv st -> Inv2 reg st -> step var reg g st o = (st', r, evs) -> Inv2 reg st'.
 Proof.
-  intros HI H2 H. apply inv_expire in HI as HIe. apply (inv2_expire reg) in H2 as H2e.
+  intros HV HI H2 H. apply inv_expire in HI as HIe. apply (inv2_expire reg) in H2 as H2e.
   destruct o; simpl in H.
-  - (* create *)
-    unfold do_create in H. cbv zeta in H. destruct (lock (expire st)); inversion H; subst; auto.
+  - unfold do_create in H. cbv zeta in H. destruct (lock (expire st)); inversion H; subst; auto.
     intros s Hin. simpl in Hin. apply in_app_or in Hin as [Hin|[<-|[]]]; [apply H2e; auto|reflexivity].
-  - (* close *)
-    unfold do_close in H. cbv zeta in H. destruct (has_session _ _); inversion H; subst; auto.
+  - unfold do_close in H. cbv zeta in H. destruct (has_session _ _); inversion H; subst; auto.
     intros s Hin. simpl in Hin. apply in_remove_session in Hin. apply H2e; auto.
-  - (* delete *)
-    unfold do_delete in H. cbv zeta in H.
+  - unfold do_delete in H. cbv zeta in H.
     destruct (find_session (sessions (expire st)) id) as [s0|] eqn:Ef; inversion H; subst; auto.
     pose proof (inv2_touch_state reg _ id H2e) as T. unfold touch_state in T. rewrite Ef in T. exact T.
-  - (* set *)
-    unfold do_set in H. cbv zeta in H.
+  - unfold do_set in H. cbv zeta in H.
     destruct (find_session (sessions (expire st)) id) as [s0|] eqn:Ef; [|inversion H; subst; auto].
     pose proof (inv2_touch_state reg _ id H2e) as T. unfold touch_state in T. rewrite Ef in T.
-    destruct (inv_single _ _ _ HIe Ef) as [Hs [Hl [Hid [Ha Hg]]]].
+    destruct (inv_single _ _ _ HIe Ef) as [Hs [Hl [Hid [Hb [N1 [N2 Hg]]]]]].
     assert (Hc0 : s_cand s0 = replay reg (running (expire st)) (s_changes s0)).
     { apply H2e. rewrite Hs. left; reflexivity. }
     destruct (get_handler reg p) as [hi|] eqn:Eh; [|inversion H; subst; exact T].
     destruct vfail; [inversion H; subst; exact T|].
+    rewrite (set_store_fixed var (proj2 HV)) in H.
     destruct (set_store Repaired (s_cand (touch s0)) (hget reg hi) p v) as [cand' ok] eqn:Est.
-    inversion H; subst; clear H. intros s Hin. simpl in Hin. simpl. rewrite Ha.
-    apply in_put_session in Hin as [->|Hin]; [|apply H2e; auto]. simpl.
+    rewrite Hs, put_single in H by reflexivity.
+    cbv beta iota zeta in H.
+    match type of H with (write_obj ?X ?o ?c, _, _) = _ =>
+      rewrite (write_obj_private X _ o c eq_refl eq_refl N1 N2) in H end.
+    inversion H; subst; clear H. intros s Hin. simpl in Hin. destruct Hin as [<-|[]]. simpl.
     destruct ok.
     + change (running (expire st)) with (running st) in Hc0.
       unfold replay in *. rewrite fold_left_app. simpl. rewrite <- Hc0.
       unfold apply_change. simpl. rewrite Eh. simpl in Est. rewrite Est. reflexivity.
     + apply set_store_failed_atomic in Est. subst cand'. exact Hc0.
-  - (* tick *)
-    inversion H; subst. intros s Hin. unfold do_tick in Hin. simpl in Hin.
+  - inversion H; subst. intros s Hin. unfold do_tick in Hin. simpl in Hin.
     apply in_map_iff in Hin as [a [<- Ha]]. simpl. apply H2; auto.
-  - (* rollback *)
-    unfold do_rollback in H. cbv zeta in H. destruct (_ || _); inversion H; subst; auto.
-  - (* commit *)
-    apply commit_repaired_cases in H as [[_ [E _]]|[_ [[s [Ef [_ [_ [_ [_ [Hs _]]]]]]] _]]].
+  - unfold do_rollback in H. cbv zeta in H. destruct (_ || _); inversion H; subst; auto.
+  - apply (commit_cases _ _ _ _ _ _ _ _ _ (proj1 HV)) in H as [[_ [[d E] _]]|[_ [[s [Ef [_ [_ [_ [_ [Hs _]]]]]]] _]]].
     + subst. apply inv2_touch_state; auto.
     + destruct (inv_single _ _ _ HIe Ef) as [Hs1 [_ [Hid _]]].
       intros s' Hin. rewrite Hs, Hs1 in Hin. subst id. rewrite remove_single in Hin. contradiction.
 Qed.
 
-Lemma inv2_run reg g ops : forall st, Inv st -> Inv2 reg st ->
-  Inv2 reg (run Repaired reg g st ops).
+Lemma inv2_run var reg g ops : fixed var -> forall st, Inv st -> Inv2 reg st ->
+  Inv2 reg (run var reg g st ops).
 Proof.
-  induction ops as [|o ops IH]; simpl; intros st HI H2; auto.
-  destruct (step Repaired reg g st o) as [[st' r] evs] eqn:E. simpl.
+  intros HV. induction ops as [|o ops IH]; simpl; intros st HI H2; auto.
+  destruct (step var reg g st o) as [[st' r] evs] eqn:E. simpl.
   apply IH; [eapply inv_step; eauto | eapply inv2_step; eauto].
 Qed.
-Lemma inv2_init reg r : Inv2 reg (init_state r).
+Lemma inv2_init reg r shared : Inv2 reg (init_state_gen r shared).
 Proof. intros s []. Qed.
 
-(* a successful commit publishes exactly: the previous running configuration with the session's Sets
-   replayed on it in the order they were made *)
-Lemma commit_publishes_replay reg g st id f st' evs :
-  Inv st -> Inv2 reg st -> do_commit Repaired reg g st id f = (st', ROk, evs) ->
+Lemma commit_publishes_replay var reg g st id f st' evs :
+  fixed var -> Inv st -> Inv2 reg st -> do_commit var reg g st id f = (st', ROk, evs) ->
   exists s, find_session (sessions (expire st)) id = Some s /\
             running st' = replay reg (running st) (s_changes s).
 Proof.
-  intros HI H2 H. apply commit_repaired_cases in H as [[E _]|[_ [[s [Ef [_ [Hr _]]]] _]]]; [congruence|].
+  intros HV HI H2 H. apply (commit_cases _ _ _ _ _ _ _ _ _ (proj1 HV)) in H as [[E _]|[_ [[s [Ef [_ [Hr _]]]] _]]]; [congruence|].
   exists s. split; auto. rewrite Hr. apply (inv2_expire reg) in H2. apply H2.
   unfold find_session in Ef. apply find_some in Ef. tauto.
 Qed.
+
+(* every call that finds the session refreshes its activity stamp *)
+Lemma set_touches var reg st id p v vf st' r :
+  do_set var reg st id p v vf = (st', r) -> r <> RNoSession ->
+  forall s, In s (sessions st') -> s_id s = id -> s_idle s = 0%N.
+Proof.
+  unfold do_set. cbv zeta.
+  destruct (find_session (sessions (expire st)) id) as [s0|] eqn:Ef; [|intros H; inversion H; congruence].
+  assert (P : forall s' l, s_idle s' = 0%N -> s_id s' = id -> forall s, In s (put_session l s') -> s_id s = id -> s_idle s = 0%N).
+  { intros s' l Hz Hid s Hin Hs. unfold put_session in Hin. apply in_map_iff in Hin as [a [Ea _]].
+    destruct (N.eqb (s_id a) (s_id s')) eqn:E; [subst; auto|].
+    subst a. apply N.eqb_neq in E. congruence. }
+  assert (Hid0 : s_id s0 = id).
+  { unfold find_session in Ef. apply find_some in Ef as [_ E]. apply N.eqb_eq in E. exact E. }
+  destruct (get_handler reg p) as [hi|]; [|intros H _; inversion H; subst; simpl; apply P; auto].
+  destruct vf; [intros H _; inversion H; subst; simpl; apply P; auto|].
+  destruct (set_store var (s_cand (touch s0)) (hget reg hi) p v) as [c ok].
+  intros H _; inversion H; subst; simpl. intros s Hin Hid.
+  apply in_map_iff in Hin as [a [Ea Hin]].
+  assert (s_id s = s_id a /\ s_idle s = s_idle a) as [I1 I2] by (destruct (N.eqb (s_oid a) _); subst; auto).
+  rewrite I2. eapply P; [| |exact Hin|congruence]; reflexivity.
+Qed.
+
